@@ -1,11 +1,336 @@
-/- Driver for C07 (stub — not built yet) -/
+/-
+Driver for C07: replays the event log of a real des simulation (harness/src/c07.rs) through
+the channel model (`ChanRun.step model`) and the abstract server (`ChanRun.step spec`) — the
+definitions the theorems in Props/C07.lean are about.
+
+The log is in dispatch order.  Offers are explicit (`ev offer`); dispatches of
+`ChannelUnbusyNotif` are internal to des and are reconstructed: an unbusy that starts queued
+messages shows as `ev deq` lines (the channel probe fired outside a `send`), one that finds the
+buffer empty is placed where event order forces it (before any later event; at a tie according
+to whether the implementation was still busy).  Both tie orders are scripts of the model.
+-/
+import Desverif.Model.ChanRun
 import Driver.Common
 namespace Driver.C07
-open Driver
+open ChanRun Driver
+open Chan (Msg Metrics DropB Fate)
+
+structure IObs where
+  busy : Bool
+  tft : Nat
+  qb : Option Nat
+  qp : Option Nat
+deriving Repr
+
+inductive Ev
+  | obs (t : Nat) (o : IObs)
+  | offer (t tag len tx : Nat) (started : Bool) (o : IObs)
+  | deq (t tag : Nat)
+  | rx (t tag : Nat) (o : IObs)
+  | fin (t : Nat) (o : IObs) (err : Nat)
+deriving Repr
+
+instance : Inhabited Ev := ⟨.deq 0 0⟩
+
+def parseObs (toks : List String) : Option IObs :=
+  match kvNat toks "busy", kvNat toks "tft" with
+  | some b, some f => some ⟨b != 0, f, kvNat toks "qb", kvNat toks "qp"⟩
+  | _, _ => none
+
+def parseEv (line : String) : Option Ev :=
+  let toks := words line
+  match toks with
+  | "ev" :: kind :: rest =>
+    match kvNat rest "t" with
+    | none => none
+    | some t =>
+      if kind = "obs" then (parseObs rest).map (Ev.obs t)
+      else if kind = "offer" then
+        match kvNat rest "tag", kvNat rest "len", kvNat rest "tx", kvNat rest "started", parseObs rest with
+        | some tag, some len, some tx, some st, some o => some (.offer t tag len tx (st != 0) o)
+        | _, _, _, _, _ => none
+      else if kind = "deq" then (kvNat rest "tag").map (Ev.deq t)
+      else if kind = "rx" then
+        match kvNat rest "tag", parseObs rest with
+        | some tag, some o => some (.rx t tag o)
+        | _, _ => none
+      else if kind = "fin" then
+        match parseObs rest, kvNat rest "err" with
+        | some o, some e => some (.fin t o e)
+        | _, _ => none
+      else none
+  | _ => none
+
+def parseDrop (s : String) : Option DropB :=
+  if s = "drop" then some .drop
+  else if s = "qinf" then some (.queue none)
+  else if s.startsWith "q" then ((s.drop 1).toString.toNat?).map fun n => DropB.queue (some n)
+  else none
+
+def showObs (o : Obs) : String := s!"busy={if o.busy then 1 else 0},tft={o.finish},qb={o.qbytes},qp={o.qlen}"
+def showIObs (o : IObs) : String :=
+  s!"busy={if o.busy then 1 else 0},tft={o.tft},qb={(o.qb.map toString).getD "-"},qp={(o.qp.map toString).getD "-"}"
+
+/-- implementation observation vs. model/spec observation (queue content is visible only while busy) -/
+def obsAgree (i : IObs) (o : Obs) : Bool :=
+  i.busy == o.busy && i.tft == o.finish &&
+  (match i.qb with | some b => b == o.qbytes | none => true) &&
+  (match i.qp with | some p => p == o.qlen | none => true)
+
+def showFate : Fate → String
+  | .started => "started" | .queued => "queued" | .droppedBusy => "dropped-busy" | .droppedFull => "dropped-full"
+
+structure Stats where
+  offers : Nat := 0
+  started : Nat := 0
+  queued : Nat := 0
+  dropBusy : Nat := 0
+  dropFull : Nat := 0
+  unbusies : Nat := 0
+  dequeued : Nat := 0
+  multiDrain : Nat := 0     -- one unbusy started ≥ 2 queued messages (zero-time transmissions)
+  tieBusy : Nat := 0        -- sender handler at the very instant of the pending unbusy, dispatched before it
+  tieIdle : Nat := 0        -- … dispatched after it
+  zeroTx : Nat := 0
+  delivered : Nat := 0
+
+structure St where
+  wm : World Chan.State
+  ws : World ChanSrv.Srv
+  delivered : List Nat := []      -- ids received so far
+  st : Stats := {}
+
+def ids (l : List (Nat × Msg)) : List Nat := l.map (·.2.id)
+
+/-- dispatch one pending unbusy in both worlds; returns the ids it started -/
+def doUnbusy (mt : Metrics) (s : St) : Except String (St × List Nat) :=
+  match step spec mt s.ws .unbusy, step model mt s.wm .unbusy with
+  | .ok ws', .ok wm' =>
+    let ns := ids (ws'.started.drop s.ws.started.length)
+    let nm := ids (wm'.started.drop s.wm.started.length)
+    if ns != nm then .error s!"kind=diverge clause=unbusy-started spec={ns} model={nm}"
+    else
+      let st := { s.st with unbusies := s.st.unbusies + 1, dequeued := s.st.dequeued + ns.length,
+                            multiDrain := s.st.multiDrain + (if ns.length ≥ 2 then 1 else 0) }
+      .ok ({ s with ws := ws', wm := wm', st := st }, ns)
+  | .error e, _ => .error s!"kind=reject clause=unbusy-step spec-error={repr e}"
+  | _, .error e => .error s!"kind=diverge clause=unbusy-step model-error={repr e}"
+
+/-- dispatch the unbusy notifications that event order forces before an event at time `t`
+    (`tie`: also one due exactly at `t`).  The log showed no transmission start, so none may start. -/
+def catchUp (mt : Metrics) (t : Nat) (tie : Bool) (s0 : St) : Except String St := do
+  let mut s := s0
+  for _ in [0:s0.ws.pend.length + 1] do
+    match minTime s.ws.pend with
+    | none => break
+    | some u =>
+      if u < t || (tie && u == t) then
+        let (s', started) ← doUnbusy mt s
+        if !started.isEmpty then
+          throw s!"kind=reject clause=stranded detail=unbusy-at-{u}-must-start-{started}-implementation-started-none-before-t={t}"
+        s := s'
+      else break
+  return s
+
+def checkObs (what : String) (i : IObs) (s : St) : Except String Unit :=
+  let os := spec.obs s.ws.chan
+  let om := model.obs s.wm.chan
+  if !obsAgree i os then .error s!"kind=reject clause={what} spec={showObs os} model={showObs om} impl={showIObs i}"
+  else if !obsAgree i om then .error s!"kind=diverge clause={what} spec={showObs os} model={showObs om} impl={showIObs i}"
+  else .ok ()
+
+def lastFate (w : World σ) (before : World σ) : Fate :=
+  if w.started.length > before.started.length then .started
+  else if w.dropBusy.length > before.dropBusy.length then .droppedBusy
+  else if w.dropFull.length > before.dropFull.length then .droppedFull
+  else .queued
+
+structure Tab where
+  tag : Nat
+  len : Nat
+  tx : Nat
+  start : Option Nat
+  rx : Option Nat
+
+def runCase (c : Case) : String := Id.run do
+  let h := words c.header
+  let id := (h[1]?).getD "?"
+  let bad (i : Nat) (msg : String) : String := s!"fail {id} op={i} {msg}"
+  let some bitrate := kvNat h "bitrate" | return bad 0 "kind=badcase detail=bitrate"
+  let some lat := kvNat h "lat" | return bad 0 "kind=badcase detail=lat"
+  let some jit := kvNat h "jit" | return bad 0 "kind=badcase detail=jit"
+  let some db := (kv h "drop").bind parseDrop | return bad 0 "kind=badcase detail=drop"
+  let mt : Metrics := ⟨lat, jit, db⟩
+  -- the event log
+  let mut evs : Array Ev := #[]
+  for line in c.body do
+    if line.startsWith "ev " then
+      match parseEv line with
+      | some e => evs := evs.push e
+      | none => return bad 0 s!"kind=badline detail={line}"
+    else if line.startsWith "end" then
+      if line != "end" then return bad 0 s!"kind=reject clause=panic impl={line}"
+  -- pre-pass: per message length, transmission time (read from the implementation), start, arrival
+  let mut tab : Array Tab := #[]
+  let mut k := 0
+  for e in evs do
+    k := k + 1
+    match e with
+    | .offer t tag len tx started _ =>
+      if tab.any (·.tag == tag) then return bad k s!"kind=badcase detail=duplicate-tag-{tag}"
+      -- calculate_busy against len*8/bitrate in exact arithmetic, ±1ns
+      if bitrate == 0 then
+        if tx != 0 then return bad k s!"kind=reject clause=tx-formula tag={tag} len={len} bitrate=0 impl-tx={tx}"
+      else
+        let exact := len * 8 * 1000000000
+        let got := tx * bitrate
+        if got > exact + bitrate || exact > got + bitrate then
+          return bad k s!"kind=reject clause=tx-formula tag={tag} len={len} bitrate={bitrate} impl-tx={tx}"
+      tab := tab.push ⟨tag, len, tx, if started then some t else none, none⟩
+    | .deq t tag =>
+      tab := tab.map fun r => if r.tag == tag && r.start.isNone then { r with start := some t } else r
+    | .rx t tag _ =>
+      tab := tab.map fun r => if r.tag == tag && r.rx.isNone then { r with rx := some t } else r
+    | _ => pure ()
+  -- jitter sample of each delivered message: arrival − start − tx − latency ∈ [0, jitter]
+  let mut msgs : Array Msg := #[]
+  for r in tab do
+    match r.start, r.rx with
+    | some s, some a =>
+      if a < s + r.tx + lat then
+        return bad 0 s!"kind=reject clause=delivery-too-early tag={r.tag} start={s} tx={r.tx} lat={lat} arrival={a}"
+      let j := a - (s + r.tx + lat)
+      if j > jit then
+        return bad 0 s!"kind=reject clause=delivery-too-late tag={r.tag} start={s} tx={r.tx} lat={lat} jit={jit} arrival={a}"
+      msgs := msgs.push ⟨r.tag, r.len, r.tx, j⟩
+    | _, _ => msgs := msgs.push ⟨r.tag, r.len, r.tx, 0⟩
+  let msgOf (tag : Nat) : Option Msg := msgs.find? (·.id == tag)
+  -- replay
+  let mut s : St := { wm := World.init model, ws := World.init spec }
+  let mut i := 0
+  let mut idx := 0
+  let n := evs.size
+  let mut sawFin := false
+  while idx < n do
+    let e := evs[idx]!
+    idx := idx + 1
+    i := i + 1
+    match e with
+    | .obs t o =>
+      if s.ws.pend.any (· == t) then
+        s := { s with st := { s.st with tieBusy := s.st.tieBusy + (if o.busy then 1 else 0),
+                                        tieIdle := s.st.tieIdle + (if o.busy then 0 else 1) } }
+      match catchUp mt t (!o.busy) s with
+      | .error m => return bad i m
+      | .ok s' => s := s'
+      match checkObs "handler-entry-state" o s with
+      | .error m => return bad i s!"{m} t={t}"
+      | .ok _ => pure ()
+    | .offer t tag _ tx started o =>
+      let some m := msgOf tag | return bad i "kind=badcase detail=msg-table"
+      match catchUp mt t started s with
+      | .error m => return bad i m
+      | .ok s' => s := s'
+      match step spec mt s.ws (.offer t m), step model mt s.wm (.offer t m) with
+      | .ok ws', .ok wm' =>
+        let fs := lastFate ws' s.ws
+        let fm := lastFate wm' s.wm
+        let before := s
+        s := { s with ws := ws', wm := wm' }
+        if started != (fs == .started) then
+          return bad i s!"kind=reject clause=fate tag={tag} t={t} spec={showFate fs} model={showFate fm} impl-started={started}"
+        if fm != fs then
+          return bad i s!"kind=diverge clause=fate tag={tag} t={t} spec={showFate fs} model={showFate fm} impl-started={started}"
+        match checkObs "state-after-send" o s with
+        | .error msg => return bad i s!"{msg} tag={tag} t={t} spec-fate={showFate fs}"
+        | .ok _ => pure ()
+        let st := before.st
+        s := { s with st := { st with
+          offers := st.offers + 1,
+          started := st.started + (if fs == .started then 1 else 0),
+          queued := st.queued + (if fs == .queued then 1 else 0),
+          dropBusy := st.dropBusy + (if fs == .droppedBusy then 1 else 0),
+          dropFull := st.dropFull + (if fs == .droppedFull then 1 else 0),
+          zeroTx := st.zeroTx + (if tx == 0 then 1 else 0) } }
+      | .error er, _ => return bad i s!"kind=reject clause=offer-step spec-error={repr er} t={t}"
+      | _, .error er => return bad i s!"kind=diverge clause=offer-step model-error={repr er} t={t}"
+    | .deq t tag =>
+      -- the maximal run of consecutive `deq` lines is one unbusy dispatch
+      let mut tags : List Nat := [tag]
+      while idx < n do
+        match evs[idx]! with
+        | .deq t' tag' =>
+          if t' == t then
+            tags := tags ++ [tag']
+            idx := idx + 1
+          else break
+        | _ => break
+      match catchUp mt t false s with
+      | .error m => return bad i m
+      | .ok s' => s := s'
+      match minTime s.ws.pend with
+      | some u =>
+        if u != t then
+          return bad i s!"kind=reject clause=start-time tags={tags} impl-start={t} spec-next-unbusy={u}"
+      | none => return bad i s!"kind=reject clause=start-time tags={tags} impl-start={t} spec-next-unbusy=none"
+      match doUnbusy mt s with
+      | .error m => return bad i m
+      | .ok (s', startedIds) =>
+        s := s'
+        if startedIds != tags then
+          return bad i s!"kind=reject clause=fifo-dequeue t={t} spec-started={startedIds} impl-started={tags}"
+    | .rx t tag o =>
+      match catchUp mt t (!o.busy) s with
+      | .error m => return bad i m
+      | .ok s' => s := s'
+      match checkObs "state-at-arrival" o s with
+      | .error m => return bad i s!"{m} t={t}"
+      | .ok _ => pure ()
+      if s.delivered.contains tag then
+        return bad i s!"kind=reject clause=duplicate-delivery tag={tag} t={t}"
+      let exs := s.ws.exits
+      match exs.find? (·.id == tag) with
+      | none => return bad i s!"kind=reject clause=phantom-delivery tag={tag} t={t}"
+      | some ex =>
+        if ex.time != t then
+          return bad i s!"kind=reject clause=delivery-time tag={tag} spec={ex.time} impl={t}"
+        let undelivered := exs.filter fun x => !(s.delivered.contains x.id) && x.id != tag
+        match undelivered.find? (·.time < t) with
+        | some x => return bad i s!"kind=reject clause=lost-or-late tag={x.id} spec-time={x.time} now={t}"
+        | none => pure ()
+        if jit == 0 then
+          -- deliveries preserve offer order: nothing scheduled earlier for the same instant may still be pending
+          let before := exs.takeWhile (·.id != tag)
+          match before.find? fun x => x.time == t && !(s.delivered.contains x.id) with
+          | some x =>
+            return bad i s!"kind=reject clause=tie-overtake tag={tag} overtakes={x.id} t={t} sched-first={x.sched} sched-second={ex.sched} lat={lat}"
+          | none => pure ()
+        s := { s with delivered := s.delivered ++ [tag], st := { s.st with delivered := s.st.delivered + 1 } }
+    | .fin t o err =>
+      sawFin := true
+      if err != 0 then return bad i s!"kind=reject clause=simulation-error err={err}"
+      -- the simulation ran out of events: every pending unbusy was dispatched
+      match catchUp mt (t + 1) false s with
+      | .error m => return bad i m
+      | .ok s' => s := s'
+      if !s.ws.pend.isEmpty then
+        return bad i s!"kind=reject clause=unbusy-after-end pend={s.ws.pend} t={t}"
+      match checkObs "final-state" o s with
+      | .error m => return bad i m
+      | .ok _ => pure ()
+      let lost := (s.ws.exits.filter fun x => !(s.delivered.contains x.id)).map (·.id)
+      if !lost.isEmpty then
+        return bad i s!"kind=reject clause=lost tags={lost}"
+      if (spec.obs s.ws.chan).qlen != 0 then
+        return bad i s!"kind=reject clause=queue-not-empty-at-end qlen={(spec.obs s.ws.chan).qlen}"
+  if !sawFin then return bad i "kind=badcase detail=no-fin-line"
+  let st := s.st
+  let nt := (st.queued + st.dropBusy + st.dropFull > 0) && st.started + st.dequeued ≥ 2
+  return s!"ok {id} nt={if nt then 1 else 0} offers={st.offers} started={st.started} queued={st.queued} dropbusy={st.dropBusy} dropfull={st.dropFull} unbusies={st.unbusies} dequeued={st.dequeued} multidrain={st.multiDrain} tiebusy={st.tieBusy} tieidle={st.tieIdle} zerotx={st.zeroTx} delivered={st.delivered}"
 
 def main (stdin : IO.FS.Stream) : IO Unit := do
   let cases ← readCases stdin
   for c in cases do
-    IO.println s!"fail {(words c.header)[1]?.getD "?"} op=0 kind=unimplemented"
+    IO.println (runCase c)
 
 end Driver.C07
